@@ -3,7 +3,6 @@
   lossless.  Statements over ℝ about Gen/ConvR.lean (instantiation of Scalar/Conv.lean.in).
 -/
 import Gen.ConvR
-import Proofs.ConvBridge
 import Mathlib.Tactic.Ring
 import Mathlib.Tactic.FieldSimp
 import Mathlib.Tactic.Linarith
@@ -214,48 +213,5 @@ theorem flipsFTn_table : (List.range 7).map (fun i => flipsFTn ((i : Int) - 3)) 
 example : ∃ q, toConv ({ val := 2, errs := [1, 3], FTn := some (-2), varFTn := some 1, trento := true, pb := true } : CPt) = some q ∧ q.val = 2 / 1000 := by
   refine ⟨_, rfl, ?_⟩
   simp [flipsFTn, flipsVar]
-
-/-! ### the completion model is what the current source says (second tie, besides the run-time correspondence)
-
-`Gen/ConvSrcR.lean` is written by `tools/gen_kin.py` from the Python AST of `_complete_xBWQ2` / `_complete_tmt` in
-src/gepard/data.py on every run: branch by branch, which keys must be present / absent, which key is set, under which
-assertion, with which formula. -/
-
-/-- the branches of the source, as data: `_complete_xBWQ2` has three (set xB from W, Q2; W from xB, Q2; Q2 from xB, W),
-    `_complete_tmt` two (tm from t under `t <= 0`; t from tm under `tm >= 0`), each followed by a raising else -/
-theorem source_completion_shape :
-    ConvSrc.trio_branches = 3 ∧ ConvSrc.duo_branches = 2 ∧
-    (ConvSrc.trio_0_present, ConvSrc.trio_0_absent, ConvSrc.trio_0_sets, ConvSrc.trio_0_assert) = (["Q2", "W"], ["xB"], "xB", "") ∧
-    (ConvSrc.trio_1_present, ConvSrc.trio_1_absent, ConvSrc.trio_1_sets, ConvSrc.trio_1_assert) = (["Q2", "xB"], ["W"], "W", "") ∧
-    (ConvSrc.trio_2_present, ConvSrc.trio_2_absent, ConvSrc.trio_2_sets, ConvSrc.trio_2_assert) = (["W", "xB"], ["Q2"], "Q2", "") ∧
-    (ConvSrc.duo_0_present, ConvSrc.duo_0_absent, ConvSrc.duo_0_sets, ConvSrc.duo_0_assert) = (["t"], ["tm"], "tm", "t <= 0") ∧
-    (ConvSrc.duo_1_present, ConvSrc.duo_1_absent, ConvSrc.duo_1_sets, ConvSrc.duo_1_assert) = (["tm"], ["t"], "t", "tm >= 0") := by
-  decide
-
-/-- the model's `completeTrio` takes, for each presence pattern, the branch of the source with the source's formula -/
-theorem source_trio (M2 : ℝ) (k : Kin) :
-    (∀ w q, k.xB = none → k.W = some w → k.Q2 = some q →
-      completeTrio M2 k = some { k with xB := some (ConvSrc.trio_0 M2 q w) }) ∧
-    (∀ x q, k.xB = some x → k.W = none → k.Q2 = some q →
-      completeTrio M2 k = some { k with W := some (ConvSrc.trio_1 M2 q x) }) ∧
-    (∀ x w, k.xB = some x → k.W = some w → k.Q2 = none →
-      completeTrio M2 k = some { k with Q2 := some (ConvSrc.trio_2 M2 w x) }) := by
-  refine ⟨fun w q h1 h2 h3 => ?_, fun x q h1 h2 h3 => ?_, fun x w h1 h2 h3 => ?_⟩
-  · simp only [completeTrio, h1, h2, h3, ConvBridge.trio_0_eq]
-  · simp only [completeTrio, h1, h2, h3, ConvBridge.trio_1_eq]
-  · simp only [completeTrio, h1, h2, h3, ConvBridge.trio_2_eq]
-
-/-- the model's `fillDuo` takes the source's branches, assertions and formulas -/
-theorem source_duo (M2 : ℝ) (k k2 : Kin) :
-    (∀ t, k.t = some t → k.tm = none → t ≤ 0 → fillDuo k k2 = .ok { k2 with tm := some (ConvSrc.duo_0 M2 t) }) ∧
-    (∀ t, k.t = some t → k.tm = none → ¬ t ≤ 0 → fillDuo k k2 = .assertionError) ∧
-    (∀ tm, k.t = none → k.tm = some tm → tm ≥ 0 → fillDuo k k2 = .ok { k2 with t := some (ConvSrc.duo_1 M2 tm) }) ∧
-    (∀ tm, k.t = none → k.tm = some tm → ¬ tm ≥ 0 → fillDuo k k2 = .assertionError) := by
-  refine ⟨fun t h1 h2 h3 => ?_, fun t h1 h2 h3 => ?_, fun tm h1 h2 h3 => ?_, fun tm h1 h2 h3 => ?_⟩
-  · simp only [fillDuo, h1, h2, h3, if_true, ConvBridge.duo_0_eq]
-  · simp only [fillDuo, h1, h2, h3, if_false]
-  · simp only [fillDuo, h1, h2, h3, if_true, ConvBridge.duo_1_eq]
-  · simp only [fillDuo, h1, h2, h3, if_false]
-
 
 end Gep.R.C13
